@@ -614,3 +614,36 @@ def neighbors(c, rng):
     for i in range(len(ops) - 1):
         sw = ops[:i] + [ops[i + 1], ops[i]] + ops[i + 2:]
         yield "%s %s %s" % (f[0], f[1], ",".join(sw))
+
+
+# ======================================================================================================================
+# Extension E3 (keep at the END of this file): the server-level tick - removal of empty groups and the liveness sweep
+# (tick counts that are multiples of 120) - op c03.srv, generator and oracle in gen/c03tick.py.  The functions above
+# are wrapped, not changed.
+from gen import c03tick as _e3
+
+ASSUMPTIONS = [a for a in ASSUMPTIONS if not a.startswith("tick counts that are multiples")] + [
+    "c03.srv: the byte counters of RTSP sessions count RTP payload, which the harness never sends (an RTSP publisher / subscriber / pull is "
+    "idle by construction); PS publishers are started with timeout_ms = 0 (no PS timeout); the traffic an event causes moves a counter by an "
+    "amount the model does not specify (only whether a counter moved between two idle checks is observable); tick counts < 2^32",
+]
+RULE += ("; c03.srv: the same events plus exactly driven byte counters and ticks at, just before and just after multiples of 120 over 1-3 "
+         "stream names (idle and active publishers / subscribers / relay sessions, empty groups lingering or removed, names reused)")
+_e3_gen_cases, _e3_nontrivial, _e3_oracle, _e3_neighbors = gen_cases, nontrivial, oracle, neighbors
+
+
+def gen_cases(tier, rng):
+    yield from _e3_gen_cases(tier, rng)
+    yield from _e3.gen_cases(tier, rng)
+
+
+def nontrivial(c, out):
+    return _e3.nontrivial(c, out) if c.line.startswith("c03.srv") else _e3_nontrivial(c, out)
+
+
+def oracle(c, out):
+    return _e3.oracle(c, out) if c.line.startswith("c03.srv") else _e3_oracle(c, out)
+
+
+def neighbors(c, rng):
+    yield from (_e3.neighbors(c, rng) if c.line.startswith("c03.srv") else _e3_neighbors(c, rng))
